@@ -143,6 +143,19 @@ fn words_of(v: &Value) -> Vec<u32> {
     v.as_array().map(|a| a.iter().map(unpair).collect()).unwrap_or_default()
 }
 
+/// The byte string as the registration manager of srtla-core consumes it while it awaits the answer to a REG1 on
+/// this uplink (the one place where the 256-byte id of a REG2 frame is actually decoded): (accepted, the adopted id
+/// is bytes 2..258 of the frame).  A panic here is a panic of the sender's event loop.
+fn reg_consume(b: &[u8]) -> (bool, bool) {
+    let mut m = srtla_core::registration::SrtlaRegistrationManager::new();
+    let _ = m.build_reg1_for(0, 1_000);
+    assert_eq!(m.pending_reg2_idx(), Some(0), "harness: the manager does not await REG2 after build_reg1_for");
+    let _ = m.process_registration_packet(0, b, 1_500);
+    let acc = m.pending_reg2_idx().is_none() && m.broadcast_reg2_pending();
+    let id_ok = !acc || (b.len() >= 258 && m.srtla_id()[..] == b[2..258]);
+    (acc, id_ok)
+}
+
 /// All real decoders / classifiers on one byte string.
 fn decode_all(b: &[u8]) -> Decoded {
     Decoded {
@@ -319,7 +332,9 @@ impl CodecEngine {
     fn dec_replay(&mut self, ev: &Value) -> Value {
         let b = frame_of(ev);
         let d = decode_all(&b);
+        let (regacc, regid) = reg_consume(&b);
         json!({
+            "regacc": regacc, "regid": regid,
             "ty": opt(d.ty, |t| json!(t)), "seq": opt(d.seq, pair), "rex": d.rex, "ack": opt(d.ack, pair),
             "nak_list": d.nak, "lack": d.lack.iter().map(|w| pair(*w)).collect::<Vec<_>>(),
             "ts": opt(d.ts, limbs), "info": opt(d.info, |i| info_json(&i)),
@@ -334,7 +349,12 @@ impl CodecEngine {
         let nak_idx = if summary { vec![] } else { sample_idx(d.nak.len(), key, usize::MAX) };
         // summary events carry the first 40 bytes only: ACK numbers 1..9 are inside them
         let lack_idx = sample_idx(d.lack.len(), key, if summary { 9 } else { usize::MAX });
+        let (regacc, regid) = reg_consume(b);
+        if regacc {
+            self.bump("reg2_accepted_by_awaiting_manager");
+        }
         json!({
+            "regacc": regacc, "regid": regid,
             "ty": opt(d.ty, |t| json!(t)), "seq": opt(d.seq, pair), "rex": d.rex, "ack": opt(d.ack, pair),
             "nak_n": d.nak.len(), "nak_at": at_json(&d.nak, &nak_idx),
             "lack_n": d.lack.len(), "lack_at": at_json(&d.lack, &lack_idx),
@@ -454,6 +474,20 @@ impl CodecEngine {
         }
         if kind != "Dec" {
             return (0, None);
+        }
+        if let Some(acc) = got.get("regacc").and_then(Value::as_bool) {
+            // (the reference says what a REG2 frame is; the manager takes the id from any frame of that type that is long
+            // enough, which the statement leaves open for longer frames)
+            let b = frame_of(ev);
+            if exp["reg2"] == json!(true) && !acc {
+                return (2, Some("C15/reg2-frame/not-accepted-by-awaiting-manager".into()));
+            }
+            if acc && (b.len() < 258 || exp["ty"] != json!([0x9201])) {
+                return (2, Some("C15/reg2-frame/short-or-foreign-frame-accepted".into()));
+            }
+            if got["regid"] != json!(true) {
+                return (2, Some("C15/reg2-frame/adopted-id-differs".into()));
+            }
         }
         for (f, name) in FNAME {
             if exp[f] != got[f] {
